@@ -99,6 +99,31 @@ add("C10", "c10_accept_eq_hash_timing", "accept",
 add("C10", "c10_reject_display_timing", "reject", "fn main() { println!(\"{}\", ClientSecret::new(\"x\".to_string())); }", code="E0277", needle="ClientSecret", features=TIMING)
 add("C10", "c10_reject_clone_verifier_timing", "reject", "fn main() { let a = PkceCodeVerifier::new(\"x\".to_string()); let _b = a.clone(); }", code="E0599", needle="clone", features=TIMING)
 
+# trait surface (model: Secrets.revealing_traits, theorem C10_surface): compiles only if NONE of the traits is
+# implemented by the type (an implemented one makes the inference below ambiguous, error E0283/E0282)
+SURFACE = [
+    ("Display", "T: std::fmt::Display"), ("Deref", "T: std::ops::Deref"), ("IntoString", "T: Into<String>"),
+    ("BorrowStr", "T: std::borrow::Borrow<str>"), ("BorrowString", "T: std::borrow::Borrow<String>"),
+    ("AsRefStr", "T: AsRef<str>"), ("AsRefString", "T: AsRef<String>"), ("AsRefBytes", "T: AsRef<[u8]>"),
+    ("ToString", "T: ToString"), ("IntoBytes", "T: Into<Vec<u8>>"), ("IntoBoxStr", "T: Into<Box<str>>"),
+    ("PartialEqStr", "T: PartialEq<str>"), ("PartialEqString", "T: PartialEq<String>"), ("StrPartialEq", "str: PartialEq<T>"),
+    ("PartialOrd", "T: PartialOrd"), ("Ord", "T: Ord"), ("Copy", "T: Copy"), ("Default", "T: Default"), ("IntoIterator", "T: IntoIterator"),
+]
+SURFACE_MACRO = """macro_rules! not_impl { ($t:ty, $name:ident, $($pred:tt)+) => {{
+    trait Amb<A> { fn item() {} }
+    impl<T> Amb<()> for T {}
+    struct $name;
+    impl<T> Amb<$name> for T where $($pred)+ {}
+    let _ = <$t as Amb<_>>::item;
+}}}
+"""
+for feats, tag in (((), ""), (TIMING, "_timing")):
+    for t in SECRET_TYPES:
+        body = SURFACE_MACRO + "fn main() { %s }" % " ".join("not_impl!(%s, No%s, %s);" % (t, n, pred) for n, pred in SURFACE)
+        add("C10", "c10_surface%s_%s" % (tag, t), "accept", body, features=feats)
+# the probe technique itself: the same assertion about a trait that IS implemented must be rejected
+add("C10", "c10_surface_selftest", "reject", SURFACE_MACRO + "fn main() { not_impl!(ClientSecret, NoDebug, T: std::fmt::Debug); }", code="E0283", needle="Amb")
+
 
 # ---- C17: the futures are Send when the caller-supplied client and closures are
 SEND_PRELUDE = "fn assert_send<T: Send>(_: T) {}\n"
